@@ -228,10 +228,10 @@ func runC06(c *vx.Ctx) {
 	core.VScaleParams(core.VR1)
 	c.Rule = "all words of block contents (alphabet of C10) up to length L after a 14-block prefix with conversions, inbound ETXs, Qi outputs and a trimmable output; per block: Process x3 warm + x1 cold replica compared; commitment oracle after acceptance; whole history replayed on leveldb and pebble zone databases"
 	c.Assume("scaled protocol constants: " + fmt.Sprint(core.VScaled))
-	c.Assume("map-iteration-order and goroutine-schedule independence are sampled by the repeated runs of this part and explored exhaustively only for the trimming goroutines (part trim-schedules)")
+	c.Assume("goroutine schedules are explored for the trimming goroutines (part trim-schedules), map-iteration start positions by part map-order; the repeated runs of part histories sample both besides")
 	maxLen := 2
 	if c.Thorough() {
-		maxLen = 3
+		maxLen = 4
 	}
 	// the sub-process parts first (worker 0 only), with a checkpoint: code under test that is schedule
 	// dependent can bring a worker process down for good ("fatal error: concurrent map writes") while
